@@ -15,7 +15,8 @@ pub fn eval_request(req: &str) -> String {
     }
     let (op, a) = (toks[0], &toks[1..]);
     let r = guarded(std::panic::AssertUnwindSafe(|| {
-        None.or_else(|| c13::eval(op, a))
+        None // one line per property module
+            .or_else(|| c13::eval(op, a))
     }));
     match r {
         Ok(Some(s)) => s,
